@@ -285,16 +285,60 @@ proof fn lemma_rev_stdout(a: State, mid: State, fin: State, n: nat)
         assert(rev_w(&b, &mid, k + n));
     }
 }
-// the bit builder (verified in unit bitstr) and the zip/cycle walk of bitstr-and/or/xor (ASSUMED std meaning, lengths only)
+// the bit builder (verified in unit bitstr with these postconditions) and the spec of bitstr-and/or/xor
 #[verifier::external_body] pub struct BitvecBuilder { _p: u8 }
 impl BitvecBuilder {
     pub uninterp spec fn bits(&self) -> Seq<bool>;
     #[verifier::external_body] pub fn default() -> (r: BitvecBuilder) ensures r.bits() == Seq::<bool>::empty() { unimplemented!() }
+    #[verifier::external_body] pub fn append_bit(&mut self, val: u8) requires val <= 1 ensures final(self).bits() == old(self).bits().push(val == 1) { unimplemented!() }
     #[verifier::external_body] pub fn finish(self) -> (r: Bitstr) ensures r.view() == self.bits() { unimplemented!() }
 }
-#[verifier::external_body] fn verif_zip_cycle<F: Fn(u8, u8) -> u8>(sa: &Bitstr, sb: &Bitstr, tmp: &mut BitvecBuilder, op: F)
-    ensures final(tmp).bits().len() == old(tmp).bits().len() + (if sb.view().len() == 0 { 0 } else { sa.view().len() })
-{ unimplemented!() }
+pub open spec fn b01(b: bool) -> u8 { if b { 1u8 } else { 0u8 } }
+// the operator of a zip walk: callable on every pair, 0/1 in gives 0/1 out (what `append_bit` asserts)
+pub open spec fn op01<F: Fn(u8, u8) -> u8>(op: F) -> bool {
+    &&& forall|x: u8, y: u8| op.requires((x, y))
+    &&& forall|x: u8, y: u8, r: u8| x <= 1 && y <= 1 && op.ensures((x, y), r) ==> r <= 1
+}
+// r = a zipped with b repeated cyclically (empty when b is empty), bit by bit through the operator's own postcondition
+pub open spec fn zip_cyc<F: Fn(u8, u8) -> u8>(op: F, a: Seq<bool>, b: Seq<bool>, r: Seq<bool>) -> bool {
+    forall|i: int| 0 <= i < r.len() ==> op.ensures((b01(a[i]), b01(b[i % (b.len() as int)])), b01(#[trigger] r[i]))
+}
+spec fn zip_a(s: &State) -> Seq<bool> { arg_a(s)->Bitstr_0.view() }
+spec fn zip_b(s: &State) -> Seq<bool> { arg_b(s)->Bitstr_0.view() }
+spec fn zip_res(s: &State) -> Seq<bool> { s.data_stack@.last()->Bitstr_0.view() }
+spec fn zip_shape(a: &State, f: &State) -> bool {
+    bin_args(a) && arg_a(a) is Bitstr && arg_b(a) is Bitstr
+        && f.data_stack@.len() == a.data_stack@.len() - 1
+        && f.data_stack@.drop_last() == a.data_stack@.take(a.data_stack@.len() - 2)
+        && f.data_stack@.last() is Bitstr
+        && zip_res(f).len() == (if zip_b(a).len() == 0 { 0 } else { zip_a(a).len() })
+}
+proof fn lemma_mod_succ(k: int, d: int)
+    requires k >= 0, d > 0
+    ensures 0 <= k % d < d, (k + 1) % d == (if k % d + 1 == d { 0 } else { k % d + 1 })
+{
+    vstd::arithmetic::div_mod::lemma_fundamental_div_mod(k, d);
+    vstd::arithmetic::div_mod::lemma_mod_bound(k, d);
+    let q = k / d; let r = k % d;
+    if r + 1 == d {
+        assert(k + 1 == (q + 1) * d + 0) by (nonlinear_arith) requires k == d * q + r, r + 1 == d;
+        vstd::arithmetic::div_mod::lemma_fundamental_div_mod_converse(k + 1, d, q + 1, 0);
+    } else {
+        assert(k + 1 == q * d + (r + 1)) by (nonlinear_arith) requires k == d * q + r;
+        vstd::arithmetic::div_mod::lemma_fundamental_div_mod_converse(k + 1, d, q, r + 1);
+    }
+}
+// and / or / xor on the two values 0 and 1
+proof fn lemma_ops01()
+    ensures
+        0u8 & 0u8 == 0u8, 0u8 & 1u8 == 0u8, 1u8 & 0u8 == 0u8, 1u8 & 1u8 == 1u8,
+        0u8 | 0u8 == 0u8, 0u8 | 1u8 == 1u8, 1u8 | 0u8 == 1u8, 1u8 | 1u8 == 1u8,
+        0u8 ^ 0u8 == 0u8, 0u8 ^ 1u8 == 1u8, 1u8 ^ 0u8 == 1u8, 1u8 ^ 1u8 == 0u8,
+{
+    assert(0u8 & 0u8 == 0u8 && 0u8 & 1u8 == 0u8 && 1u8 & 0u8 == 0u8 && 1u8 & 1u8 == 1u8) by (bit_vector);
+    assert(0u8 | 0u8 == 0u8 && 0u8 | 1u8 == 1u8 && 1u8 | 0u8 == 1u8 && 1u8 | 1u8 == 1u8) by (bit_vector);
+    assert(0u8 ^ 0u8 == 0u8 && 0u8 ^ 1u8 == 1u8 && 1u8 ^ 0u8 == 1u8 && 1u8 ^ 1u8 == 0u8) by (bit_vector);
+}
 //@use cursor.fns ::bitstring_zip_with
 //@use cursor.fns ::bitstring_and
 //@use cursor.fns ::bitstring_or
